@@ -26,4 +26,11 @@ Interesting(k, Nx, Wx, Wy) ==
 SuggestedPoints(Nx, Wx, Wy) ==
   LET C == Conflicts(Wx, Wy) IN
   { w[1] + 1 : w \in { v \in Wx : v[2] \in C } } \cup { w[1] + 2 : w \in { v \in Wx : v[2] \in C /\ v[1] + 2 <= Nx } }
+
+\* nested schedules: X runs to k1, Y runs to k2, X completes, Y completes (both inside the library at once, finishing in starting
+\* order).  Interesting when each has written a shared cell the other also writes before being suspended: the cell then holds the
+\* other's update while the first still relies on its own (a shared stack / scratch buffer).  <<k1, k2>> right after such writes.
+SuggestedNested(Wx, Wy) ==
+  LET C == Conflicts(Wx, Wy) IN
+  { << w[1] + 1, v[1] + 1 >> : w \in { a \in Wx : a[2] \in C }, v \in { b \in Wy : b[2] \in C } }
 =============================================================================
